@@ -38,7 +38,9 @@ MergeVerdict(rs, o) ==
 
 \* ---- the table of evo_res: c = [labels : Seq(expected column labels), merge]; o = [out, labels, cells_ok, keys_ok]
 TableVerdict(c, o) ==
-  IF o.out # "ok" THEN "TableNotProduced"
+  \* two inputs with the same label: refusing is fine, silently dropping one of them is not
+  IF c.dup /\ o.out # "ok" THEN "ok"
+  ELSE IF o.out # "ok" THEN "TableNotProduced"
   ELSE IF {o.labels[k] : k \in DOMAIN o.labels} # {c.labels[k] : k \in DOMAIN c.labels} \/ Len(o.labels) # Len(c.labels) THEN "WrongColumnLabels"
   ELSE IF ~o.keys_ok THEN "StatisticsMissingOrExtra"
   ELSE IF ~o.cells_ok THEN "CellNotTheStoredStatistic"
